@@ -653,4 +653,69 @@ theorem epi_ge_owed (c : Controller.Cfg) (hwf : CtlInv.WF c) (s : Controller.Sta
     have := Nat.mul_le_mul_right (M c.rf) h1
     omega
 
+/-- while the refresher is not idle, the bound on the rest of the episode goes down on every clock edge -/
+theorem epi_dec (c : Controller.Cfg) (hwf : CtlInv.WF c) (s : Controller.State) (g : Ghost) (w : Nat → Nat)
+    (ins : Array BankIn) (h : NL c s g w) (hni : s.rf.fsm ≠ .idle) :
+    epi c (Controller.step c s ins).1 (wG c s ins w) + 1 ≤ epi c s w := by
+  have hrfI := h.cinv.rf
+  obtain ⟨hF1, hF2, hF3, hF4⟩ := rf_step_facts c.rf hwf.rf s.rf g.pd (s.fsm == .refresh) hrfI h.exd h.zqd
+  obtain ⟨hZ1, hZ2⟩ := rf_zq_facts c.rf hwf.rf s.rf g.pd (s.fsm == .refresh) hrfI h.zqd
+  have hrf' : (Controller.step c s ins).1.rf = Refresher.step c.rf s.rf (s.fsm == .refresh) := step_rf c s ins
+  rw [← hrf'] at hF1 hF2 hF3 hF4 hZ1 hZ2
+  cases hfs : s.rf.fsm with
+  | idle => exact absurd hfs hni
+  | waitBm =>
+    by_cases hmr : s.fsm = .refresh
+    · obtain ⟨e1, e2⟩ := (hF2 hfs).1 (by simp [hmr])
+      simp only [epi, e1, e2, hfs, hmr, if_true]; omega
+    · have e1 := (hF2 hfs).2 (by simp [hmr])
+      have hwg : wG c s ins w = wStep c s ins w := by simp [wG, hfs, hmr]
+      have hp1 := psi_pos c s w
+      simp only [epi, e1, hwg, hfs, hmr, if_false]
+      rcases live_step c s ins w (h.linv hfs hmr) hfs hmr with hr | ⟨_, _, hd⟩
+      · simp only [hr, if_true]; omega
+      · split <;> omega
+  | doRefresh =>
+    rcases hF1 hfs with ⟨e1, e2⟩ | ⟨e1, e2⟩ | ⟨e1, e2, e3⟩
+    · simp only [epi, e1, hfs]; omega
+    · simp only [epi, e1, hfs]; omega
+    · simp only [epi, e1, e3, hfs]; omega
+  | doZqcs =>
+    rcases hZ1 hfs with ⟨e1, e2⟩ | e1
+    · simp only [epi, e1, hfs]; omega
+    · simp only [epi, e1, hfs]
+      have hz := hrfI.zqNone
+      cases hzz : c.rf.tZQCS with
+      | none => exact absurd hfs (hz hzz).2
+      | some z => simp only [zqRem, hzz]; omega
+
+/-- the refresher is back in IDLE within `epi` cycles -/
+theorem reach_idle (c : Controller.Cfg) (hwf : CtlInv.WF c) (hb : Budget c) (inputs : List (Array BankIn)) :
+    ∀ (s : Controller.State) (g : Ghost) (w : Nat → Nat), NL c s g w → (∀ ins ∈ inputs, InsOk c ins) → epi c s w ≤ inputs.length →
+      ∃ k, k ≤ epi c s w ∧ (CtlLive.runCtl c s (inputs.take k)).rf.fsm = .idle := by
+  induction inputs with
+  | nil =>
+    intro s g w h _ hlen
+    by_cases hi : s.rf.fsm = .idle
+    · exact ⟨0, Nat.zero_le _, by simpa [CtlLive.runCtl] using hi⟩
+    · exfalso
+      simp only [List.length_nil] at hlen
+      cases hfs : s.rf.fsm <;> simp only [epi, hfs, Wd, zqRem] at hlen
+      · exact hi hfs
+      · omega
+      · omega
+      · have hz := h.cinv.rf.zqNone
+        cases hzz : c.rf.tZQCS with
+        | none => exact absurd hfs (hz hzz).2
+        | some z => simp only [hzz] at hlen; omega
+  | cons ins rest ih =>
+    intro s g w h hins hlen
+    by_cases hi : s.rf.fsm = .idle
+    · exact ⟨0, Nat.zero_le _, by simpa [CtlLive.runCtl] using hi⟩
+    · have hd := epi_dec c hwf s g w ins h hi
+      have h' := nl_step c hwf hb s g w ins (hins ins (by simp)) h
+      simp only [List.length_cons] at hlen
+      obtain ⟨k, hk, hkf⟩ := ih _ _ _ h' (fun x hx => hins x (by simp [hx])) (by omega)
+      exact ⟨k + 1, by omega, by simpa [CtlLive.runCtl] using hkf⟩
+
 end RefreshRate
